@@ -80,7 +80,20 @@ def cases(tier, seed=0):
     for g in recursive.family():
         for scc in sccs.get(g['name'], []):
             for method in ('fixed-point', 'newton'):
-                cs.append({'spec': g['spec'], 'semiring': 'real', 'method': method, 'j_precompute': False, 'scc': scc, 'name': g['name']})
+                for kind in ('real', 'log'):
+                    cs.append({'spec': g['spec'], 'semiring': kind, 'method': method, 'j_precompute': False, 'scc': scc, 'name': g['name']})
+    # an SCC containing a structurally dead nonterminal: the dead rule must not disturb the pairing of rules with their weights
+    for g in recursive.dead_scc_family():
+        for kind in ('real', 'log'):
+            cs.append({'spec': g['spec'], 'semiring': kind, 'method': 'newton', 'j_precompute': False, 'scc': g['scc'], 'dead': g['dead'], 'name': g['name']})
+    # linearly recursive grammars with vector-/matrix-valued nonterminals, full public-API path (forward linear/newton + backward),
+    # recursion weights concrete (asymmetric dyadic matrices), all other weights and the cotangent symbolic
+    for g in recursive.linear_tensor_family():
+        for kind in ('real', 'log'):
+            if kind == 'log' and not g['log_ok']:
+                continue        # Log: the Jacobian depends on the (symbolic) fixed point; SCCs with more than 2 cells exceed the linalg stub / solver reach
+            for method in ('linear', 'newton'):
+                cs.append({'spec': g['spec'], 'semiring': kind, 'method': method, 'j_precompute': False, 'linrec': True, 'concrete': g['concrete'], 'name': g['name']})
     return cs
 
 
@@ -99,6 +112,8 @@ def run_case(col, case, dt='float64'):
     col.case(json.dumps([spec, kind, case['method']], sort_keys=True), nontrivial=True, sample={'rules': spec['rules'], 'semiring': kind, 'method': case['method']})
     if 'scc' in case:
         return run_recursive(col, case, dtype, feats)
+    if case.get('linrec'):
+        return run_linrec(col, case, dtype, feats)
     typ = spec['nonterminals'][spec['start']]
     nout = max(1, math.prod(spec['domains'][l] for l in typ))
     profiles = [tuple('P' * nunk)]
@@ -137,10 +152,11 @@ def run_recursive(col, case, dtype, feats):
     shapes = grammars.weight_shapes(spec)
     names = sorted(shapes)
     V = symvals.Vars()
-    flat = {n: [V.elem(f'{n}_{i}', 'real', 'P') for i in range(math.prod(shapes[n]))] for n in names}
-    zv = [V.elem(f'z_{n}', 'real', 'P') for n in case['scc']]
+    kind = case['semiring']
+    flat = {n: [V.elem(f'{n}_{i}', kind, 'P') for i in range(math.prod(shapes[n]))] for n in names}
+    zv = [V.elem(f'z_{n}', kind, 'P') for n in case['scc']]
     cot = [V.elem(f'c{j}', 'lin', 'F') for j in range(len(case['scc']))]
-    B = B3('real', dtype)
+    B = B3(kind, dtype)
     sx.ABSTRACT[0] = False
 
     def body():
@@ -148,11 +164,42 @@ def run_recursive(col, case, dtype, feats):
         return [(TL.all_same(got, want), name) for name, got, want in items]
 
     def make_replay(vals, name):
-        return {'spec': spec, 'semiring': 'real', 'method': case['method'], 'j_precompute': False, 'scc': case['scc'],
+        return {'spec': spec, 'semiring': kind, 'method': case['method'], 'j_precompute': False, 'scc': case['scc'], 'dead': case.get('dead', []),
                 'values': TL.jsonable(vals), 'claim': name, 'recursive': True}
     f = dict(feats)
     f['recursive_scc'] = True
     TL.explore(col, V, body, f, make_replay, label=f"grad/recursive/{case['name']}", timeout_ms=60000)
+
+
+def run_linrec(col, case, dtype, feats):
+    spec = case['spec']
+    kind = case['semiring']
+    shapes = grammars.weight_shapes(spec)
+    names = sorted(shapes)
+    V = symvals.Vars()
+    flat = {}
+    for n in names:
+        if n in case['concrete']:
+            flat[n] = [(sx.LogV(float(v)) if kind == 'log' else float(v)) for v in case['concrete'][n]]
+        else:
+            flat[n] = [V.elem(f'{n}_{i}', kind, 'P') for i in range(math.prod(shapes[n]))]
+    typ = spec['nonterminals'][spec['start']]
+    nout = max(1, math.prod(spec['domains'][l] for l in typ))
+    cot = [V.elem(f'c{j}', 'lin', 'F') for j in range(nout)]
+    B = B3(kind, dtype)
+    sx.ABSTRACT[0] = False
+    sx.FORK[0] = False
+
+    def body():
+        items = R.run_linear_recursive(B, case, flat, cot)
+        return [(TL.all_same(got, want) if len(got) == len(want) else False, name) for name, got, want in items]
+
+    def make_replay(vals, name):
+        return {'spec': spec, 'semiring': kind, 'method': case['method'], 'j_precompute': False, 'linrec': True, 'concrete': case['concrete'],
+                'values': TL.jsonable(vals), 'claim': name, 'name': case['name']}
+    f = dict(feats)
+    f['linear_recursive_tensor'] = True
+    TL.explore(col, V, body, f, make_replay, label=f"grad/linrec/{case['name']}/{kind}/{case['method']}", timeout_ms=60000)
 
 
 def main():
